@@ -12,6 +12,7 @@ From D3 Require Import Base.Ops Base.Vec Base.RVec Base.RVec2 Spec.Convex Spec.P
   Model.Support Model.DistPrimComb Proofs.DistComb Proofs.DistCombOpt.
 Import ListNotations.
 From D3 Require Spec.Shapes Proofs.DistPlaneRound.
+From D3 Require Import Proofs.DistBoxOpt.
 Local Open Scope R_scope.
 (* [exists d c1 c2, f args = (d, c1, c2) /\ _]: name the components of the model's result *)
 Ltac ex3 := match goal with |- exists d c1 c2, ?e = _ /\ _ =>
@@ -479,3 +480,31 @@ Example C11_plane_to_cylinder_nonvacuous :
   feasible (plane_set pp pn) (Shapes.cylinder_set T 1 2) 2 (V 1 0 0) (V 1 0 2) /\
   optimal (plane_set pp pn) (Shapes.cylinder_set T 1 2) 2.
 Proof. exact DistPlaneRound.plane_to_cylinder_nonvacuous. Qed.
+
+(** rectangle_to_box: vertex-inside test, then the six faces with rectangle_to_rectangle; [face_band] = the parallel-test bands of
+    rectangle_to_rectangle for every face; result band as for rectangle_to_rectangle; 0 <= eps is needed (with a negative eps a
+    rectangle wholly inside the box would get past the vertex loop) *)
+Theorem C11_rectangle_to_box (rc a0 a1 : V3R) (l0 l1 : R) (T : Pose R) (sz : V3R) (eps : R) d p1 p2 :
+  dot a0 a0 = 1 -> dot a1 a1 = 1 -> dot a0 a1 = 0 ->
+  0 <= l0 -> 0 <= l1 -> eps6 <= l0 * l0 -> eps6 <= l1 * l1 ->
+  is_rotation (rot T) -> 0 <= vx sz -> 0 <= vy sz -> 0 <= vz sz ->
+  eps6 <= vx sz * vx sz -> eps6 <= vy sz * vy sz -> eps6 <= vz sz * vz sz ->
+  0 <= eps ->
+  (forall i positive, face_band a0 a1 T sz i positive) ->
+  rectangle_to_box rc a0 a1 l0 l1 T sz eps = (d, p1, p2) ->
+  d = 0 \/ (eps < d /\ eps6 <= d) ->
+  optimal (rectangle_set rc a0 a1 l0 l1) (box_of T sz) d.
+Proof. exact (rectangle_to_box_optimal rc a0 a1 l0 l1 T sz eps d p1 p2). Qed.
+Print Assumptions C11_rectangle_to_box.
+Example C11_rectangle_to_box_nonvacuous :
+  exists rc a0 a1 l0 l1 T sz eps d p1 p2,
+    dot a0 a0 = 1 /\ dot a1 a1 = 1 /\ dot a0 a1 = 0 /\
+    0 <= l0 /\ 0 <= l1 /\ eps6 <= l0 * l0 /\ eps6 <= l1 * l1 /\
+    is_rotation (rot T) /\ 0 <= vx sz /\ 0 <= vy sz /\ 0 <= vz sz /\
+    eps6 <= vx sz * vx sz /\ eps6 <= vy sz * vy sz /\ eps6 <= vz sz * vz sz /\
+    0 <= eps /\
+    (forall i positive, face_band a0 a1 T sz i positive) /\
+    rectangle_to_box rc a0 a1 l0 l1 T sz eps = (d, p1, p2) /\
+    (eps < d /\ eps6 <= d) /\
+    optimal (rectangle_set rc a0 a1 l0 l1) (box_of T sz) d.
+Proof. exact rectangle_to_box_optimal_nonvacuous. Qed.
